@@ -1,1 +1,1 @@
-import MtblProofs
+import MtblProps.C16
